@@ -535,6 +535,82 @@ pub fn run_c19(tier: Tier) -> i32 {
             }
         }
     });
+    // End to end: the hooked service run by a real server channel (`execute`) and called by a real
+    // client over the in-memory transport - what the caller receives IS the error the failing
+    // before-hook produced / the result the after-hook left, whatever its kind and however long its
+    // detail (seeded change C19n shortened details over 1024 bytes on the way out of `execute`).
+    {
+        use futures::StreamExt;
+        use tarpc::server::{BaseChannel, Channel};
+        let rt = tokio::runtime::Builder::new_current_thread().enable_time().build().unwrap();
+        for len in [0usize, 1, 1023, 1024, 1025, 4096, 70_000] {
+            for stage in 0..3u8 {
+                evals += 1;
+                {
+                    use std::hash::{Hash, Hasher};
+                    let mut h = std::collections::hash_map::DefaultHasher::new();
+                    ("e2e", len, stage).hash(&mut h);
+                    distinct.insert(h.finish());
+                }
+                let detail: String = "x".repeat(len);
+                let kind = [std::io::ErrorKind::PermissionDenied, std::io::ErrorKind::InvalidData, std::io::ErrorKind::Other][stage as usize];
+                let d2 = detail.clone();
+                let got = std::panic::catch_unwind(std::panic::AssertUnwindSafe(|| {
+                    rt.block_on(async {
+                        let (ct, st) = tarpc::transport::channel::unbounded();
+                        let d_before = d2.clone();
+                        let d_after = d2.clone();
+                        let d_handler = d2.clone();
+                        let serve = tarpc::server::serve(move |_, x: u32| {
+                            let d = d_handler.clone();
+                            async move {
+                                if stage == 2 {
+                                    Err(ServerError::new(kind, d))
+                                } else {
+                                    Ok(x)
+                                }
+                            }
+                        })
+                        .before(move |_: &mut context::Context, _: &u32| {
+                            let d = d_before.clone();
+                            async move {
+                                if stage == 0 {
+                                    Err(ServerError::new(kind, d))
+                                } else {
+                                    Ok(())
+                                }
+                            }
+                        })
+                        .after(move |_: &mut context::Context, r: &mut Result<u32, ServerError>| {
+                            if stage == 1 {
+                                *r = Err(ServerError::new(kind, d_after.clone()));
+                            }
+                            std::future::ready(())
+                        });
+                        let server = tokio::spawn(BaseChannel::with_defaults(st).execute(serve).for_each(|h| async move {
+                            tokio::spawn(h);
+                        }));
+                        let client = tarpc::client::new::<u32, u32, _>(tarpc::client::Config::default(), ct).spawn();
+                        let r = client.call(context::current(), 7).await;
+                        server.abort();
+                        r
+                    })
+                }));
+                let who = ["a before-hook refuses", "an after-hook rewrites the result to an error", "the handler fails"][stage as usize];
+                match got {
+                    Err(_) => failures.push(("C19-panic".to_string(), format!("end to end, {who} with a detail of {len} bytes: {}", crate::mock::take_panic()))),
+                    Ok(Err(tarpc::client::RpcError::Server(e))) if e.kind == kind && e.detail == detail => {}
+                    Ok(other) => {
+                        let shown = match &other {
+                            Err(tarpc::client::RpcError::Server(e)) => format!("ServerError {{ kind: {:?}, detail: {} bytes }}", e.kind, e.detail.len()),
+                            o => format!("{:?}", o.as_ref().map_err(|e| e.to_string())),
+                        };
+                        failures.push(("C19-response-differs".to_string(), format!("end to end through execute + a real client, {who} with kind {kind:?} and a detail of {len} bytes: the caller received {shown}")));
+                    }
+                }
+            }
+        }
+    }
     finish_grid(
         "C19",
         tier,
@@ -543,7 +619,7 @@ pub fn run_c19(tier: Tier) -> i32 {
         distinct.len() as u64,
         &failures,
         json!({"nestings": nestings.len(), "nestings_skipped_over_part_cap": skipped, "part_cap": cap_parts}),
-        "every nesting of <=3 wrappers from {before(h), after(h), before_and_after(h), before().then(h1)[.then(h2)[.then(h3)]].serving(s)} around a recording handler (259 type instantiations built by generic code, and 106 of them - all nestings of depth <= 2, depth 3 over four wrapper kinds - also chained directly on the concrete types, so that method resolution is the one application code gets, plus variants of those in which the before-hooks (all of them, or all but the first of a list) are zero-sized values, plus every nesting once more with closures as before-hooks; what a hook leaves in the context is written into the deadline, the trace id, the span id and the sampling decision together; nestings of depth <= 2 once more under an OpenTelemetry layer inside a span; no dynamic dispatch over tarpc types); for each nesting every assignment of behaviours: each before-part in {ok, ok+mutate ctx, fail}, each after-part in {keep, Ok->Err, Err->Ok}, handler in {Ok, Err}; nestings whose parts exceed the cap are listed as skipped; exact equality of the invocation log (who ran, order, context marker seen, result seen) and of the final Result with a reference interpreter",
+        "every nesting of <=3 wrappers from {before(h), after(h), before_and_after(h), before().then(h1)[.then(h2)[.then(h3)]].serving(s)} around a recording handler (259 type instantiations built by generic code, and 106 of them - all nestings of depth <= 2, depth 3 over four wrapper kinds - also chained directly on the concrete types, so that method resolution is the one application code gets, plus variants of those in which the before-hooks (all of them, or all but the first of a list) are zero-sized values, plus every nesting once more with closures as before-hooks; what a hook leaves in the context is written into the deadline, the trace id, the span id and the sampling decision together; nestings of depth <= 2 once more under an OpenTelemetry layer inside a span; end to end (execute on a real channel + a real client over the in-memory transport) a refusing before-hook / a rewriting after-hook / a failing handler with error details of 0..70 000 bytes; no dynamic dispatch over tarpc types); for each nesting every assignment of behaviours: each before-part in {ok, ok+mutate ctx, fail}, each after-part in {keep, Ok->Err, Err->Ok}, handler in {Ok, Err}; nestings whose parts exceed the cap are listed as skipped; exact equality of the invocation log (who ran, order, context marker seen, result seen) and of the final Result with a reference interpreter",
         samples.into_inner().unwrap().into_iter().map(|c| json!({"case": c})).collect(),
     )
 }
